@@ -1,7 +1,10 @@
 package world
 
 import (
+	"bufio"
 	"errors"
+	"io"
+	"net"
 	"net/http"
 
 	"verif/sim/internal/sched"
@@ -14,16 +17,19 @@ import (
 // it injects short writes and write errors according to the request's plan and
 // records every call.
 type Spy struct {
-	req      *Req
-	H        http.Header
-	Sent     http.Header // snapshot of H when the status went out
-	Code     int         // first status accepted (0: none yet)
-	Implicit bool        // the status was implied by a body write / flush
-	Body     []byte
-	NStatus  int // number of statuses accepted (superfluous ones included)
-	NWrite   int
-	NFlush   int
-	plan     []WFault
+	req       *Req
+	H         http.Header
+	Sent      http.Header // snapshot of H when the status went out
+	Code      int         // first status accepted (0: none yet)
+	Implicit  bool        // the status was implied by a body write / flush
+	Body      []byte
+	NStatus   int // number of statuses accepted (superfluous ones included)
+	NWrite    int
+	NFlush    int
+	NHijack   int
+	CountOnly bool // do not store body bytes, only count them (bulk histories)
+	Count     int64
+	plan      []WFault
 }
 
 // ErrInjected is the error returned by injected write faults.
@@ -85,6 +91,10 @@ func (s *Spy) Write(b []byte) (int, error) {
 			}
 		}
 	}
+	if s.CountOnly {
+		s.Count += int64(len(b))
+		return len(b), nil
+	}
 	s.Body = append(s.Body, b...)
 	s.req.ev(EvSpyWrite, 0, len(b), "")
 	return len(b), nil
@@ -108,6 +118,93 @@ func (s SpyF) Flush() { s.flush() }
 func (s *Spy) Writer(flusher bool) http.ResponseWriter {
 	if flusher {
 		return SpyF{s}
+	}
+	return s
+}
+
+// readFrom is io.ReaderFrom as net/http's response implements it: the status is
+// committed (implicit 200) and the reader is drained into the body; write faults
+// apply per chunk.
+func (s *Spy) readFrom(r io.Reader) (int64, error) {
+	var total int64
+	buf := make([]byte, 512)
+	for {
+		n, err := r.Read(buf)
+		if n > 0 {
+			m, werr := s.Write(buf[:n])
+			total += int64(m)
+			if werr != nil {
+				return total, werr
+			}
+		}
+		if err == io.EOF {
+			if total == 0 && s.Code == 0 {
+				sched.Yield(SiteSpyWrite)
+				s.sendStatus(http.StatusOK, true)
+			}
+			return total, nil
+		}
+		if err != nil {
+			return total, err
+		}
+	}
+}
+
+// hijack is http.Hijacker: the spy hands out nothing and notes the call.
+func (s *Spy) hijack() (net.Conn, *bufio.ReadWriter, error) {
+	sched.Yield(SiteSpyFlush)
+	s.NHijack++
+	s.req.ev(EvNote, 0, 0, "underlying.Hijack")
+	return nil, nil, nil
+}
+
+// Facet types: every combination of Flusher / ReaderFrom / Hijacker.
+type (
+	SpyR   struct{ *Spy }
+	SpyH   struct{ *Spy }
+	SpyFR  struct{ *Spy }
+	SpyFH  struct{ *Spy }
+	SpyRH  struct{ *Spy }
+	SpyFRH struct{ *Spy }
+)
+
+func (s SpyR) ReadFrom(r io.Reader) (int64, error)   { return s.readFrom(r) }
+func (s SpyFR) ReadFrom(r io.Reader) (int64, error)  { return s.readFrom(r) }
+func (s SpyRH) ReadFrom(r io.Reader) (int64, error)  { return s.readFrom(r) }
+func (s SpyFRH) ReadFrom(r io.Reader) (int64, error) { return s.readFrom(r) }
+func (s SpyFR) Flush()                               { s.flush() }
+func (s SpyFH) Flush()                               { s.flush() }
+func (s SpyFRH) Flush()                              { s.flush() }
+func (s SpyH) Hijack() (net.Conn, *bufio.ReadWriter, error) {
+	return s.hijack()
+}
+func (s SpyFH) Hijack() (net.Conn, *bufio.ReadWriter, error) {
+	return s.hijack()
+}
+func (s SpyRH) Hijack() (net.Conn, *bufio.ReadWriter, error) {
+	return s.hijack()
+}
+func (s SpyFRH) Hijack() (net.Conn, *bufio.ReadWriter, error) {
+	return s.hijack()
+}
+
+// WriterFacets returns the underlying writer with the requested optional interfaces.
+func (s *Spy) WriterFacets(flusher, readerFrom, hijacker bool) http.ResponseWriter {
+	switch {
+	case flusher && readerFrom && hijacker:
+		return SpyFRH{s}
+	case flusher && readerFrom:
+		return SpyFR{s}
+	case flusher && hijacker:
+		return SpyFH{s}
+	case readerFrom && hijacker:
+		return SpyRH{s}
+	case flusher:
+		return SpyF{s}
+	case readerFrom:
+		return SpyR{s}
+	case hijacker:
+		return SpyH{s}
 	}
 	return s
 }
